@@ -8,7 +8,16 @@ from vlib.common import PROVED, REFUTED, UNKNOWN
 
 
 def solve(constraints, timeout):
-    """-> (status, model, secs): unsat = PROVED, sat = REFUTED (+model)"""
+    """-> (status, model, secs): unsat = PROVED, sat = REFUTED (+model).  An `unknown` is retried ONCE with four times the limit
+    (time-outs under machine load must not turn a decidable query into an undecided obligation)"""
+    st, m, secs = _solve_once(constraints, timeout)
+    if st == UNKNOWN:
+        st2, m2, secs2 = _solve_once(constraints, 4 * timeout)
+        return st2, m2, secs + secs2
+    return st, m, secs
+
+
+def _solve_once(constraints, timeout):
     timeout = backends.scaled_timeout(timeout)      # wall-clock limits scale with machine load (never flips a decided verdict)
     s = z3.Solver()
     s.set("timeout", timeout)
